@@ -405,6 +405,7 @@ def profiles(tier, seed, light=False, focus=None):
         solo = dict(base, whos=["A"], maxdepth=4, maxtrue=3)
         P.append(dict(solo, W=2, D=2, H=5, ntables=6))
         P.append(dict(solo, W=1, D=1, H=2, ntables=1))
+        P.append(dict(solo, W=1, D=2, H=2, ntables=1, maxdepth=3))          # one column, several rows
         P.append(dict(solo, W=3, D=2, H=7, ntables=4, maxdepth=3))
         P.append(dict(base, W=2, D=2, H=5, ntables=4, maxdepth=3, maxtrue=2))
         P.append(dict(base, W=2, D=1, H=3, ntables=3, maxdepth=3, maxtrue=2, keys=["a", "b"]))
@@ -412,6 +413,7 @@ def profiles(tier, seed, light=False, focus=None):
         P.append(dict(solo, W=2, D=3, H=5, ntables=3, mode="meanmin", maxdepth=3))
         P.append(dict(base, W=2, D=2, H=5, ntables=4, kind="hh", nh=2, whos=["A"], keys=["a", "b", "c", "d"], amts=[1, 2], maxdepth=4, maxtrue=4))
         P.append(dict(base, W=1, D=1, H=2, ntables=1, kind="hh", nh=1, whos=["A"], keys=["a", "b", "c"], amts=[1, 2], maxdepth=5, maxtrue=4))
+        P.append(dict(base, W=2, D=1, H=3, ntables=3, kind="hh", nh=2, whos=["A"], keys=["a", "b", "c"], amts=[0, 1], maxdepth=4, maxtrue=3))     # amount 0 is a valid call
         P.append(dict(base, W=2, D=2, H=5, ntables=4, kind="st", thr=2, whos=["A"], maxdepth=4, maxtrue=3))
         P.append(dict(base, W=1, D=1, H=2, ntables=1, kind="st", thr=3, whos=["A"], amts=[1, 3], maxdepth=5, maxtrue=4))
         P.append(dict({**base, **tiny}, W=2, D=2, H=5, ntables=4, maxdepth=3, whos=["A"]))
@@ -429,6 +431,8 @@ def profiles(tier, seed, light=False, focus=None):
         for nh in (1, 2, 3):
             P.append(dict(base, W=2, D=2, H=5, ntables=5, kind="hh", nh=nh, whos=["A"], keys=["a", "b", "c", "d"], maxdepth=5, maxtrue=4))
         P.append(dict(base, W=1, D=2, H=2, ntables=1, kind="hh", nh=2, whos=["A"], keys=["a", "b", "c", "d"], maxdepth=6, maxtrue=4))
+        P.append(dict(base, W=2, D=1, H=3, ntables=4, kind="hh", nh=2, whos=["A"], keys=["a", "b", "c"], amts=[0, 1, 2], maxdepth=5, maxtrue=4))
+        P.append(dict(base, W=2, D=1, H=3, ntables=4, kind="st", thr=1, whos=["A"], keys=["a", "b"], amts=[0, 1], maxdepth=5, maxtrue=3))
         for thr in (1, 2, 3):
             P.append(dict(base, W=2, D=2, H=5, ntables=5, kind="st", thr=thr, whos=["A"], amts=[1, 3], maxdepth=5, maxtrue=4))
         P.append(dict(base, W=1, D=1, H=2, ntables=1, kind="st", thr=3, whos=["A"], amts=[1, 3], maxdepth=6, maxtrue=5))
